@@ -560,6 +560,24 @@ ada_really_inline bool url_aggregator::parse_host(std::string_view input) {
     is_valid = true;
     return true;
   }
+  if (is_forbidden_or_upper == 2) {
+    // Only ASCII upper-case letters stand in the way of the fast path. For an
+    // all-ASCII domain without an ACE label, domain to ASCII is lower-casing and
+    // nothing else - ada::url takes exactly this route - so there is no reason
+    // to go through to_ascii (and its input-size cap) here.
+    std::string lowered(input);
+    unicode::to_lower_ascii(lowered.data(), lowered.size());
+    if (lowered.find(xn_dash) == std::string::npos) {
+      update_base_hostname(lowered);
+      if (checkers::is_ipv4(get_hostname())) {
+        ada_log("parse_host lower-cased fast path ipv4");
+        return parse_ipv4(get_hostname(), true);
+      }
+      ada_log("parse_host lower-cased fast path ", get_hostname());
+      is_valid = true;
+      return true;
+    }
+  }
   // We have encountered at least one forbidden code point or the input contains
   // 'xn-' (case insensitive), so we need to call 'to_ascii' to perform the full
   // conversion.
